@@ -43,12 +43,14 @@ def run(ctx):
     ctx.assumptions += ["TLC and the CommunityModules", "distinct hash terms are distinct hashes (collision freedom of SHA-256d tagged hashes)",
                         "the driver's mapping between hash terms and real hashes (harness/hashtree_driver.py: World.dec/enc)"]
     # ---- MC ----
-    runs = ([(1, 3, 2, ALTS, '{"no", "same", "diff"}'), (4, 4, 2, ALTS, '{"no"}'), (1, 8, 4, '{"g", "m"}', '{"no"}')] if q else
+    runs = ([(1, 3, 2, ALTS, '{"no", "diff"}'), (4, 4, 2, ALTS, '{"no"}'), (1, 8, 3, '{"g", "m"}', '{"no"}')] if q else
             [(1, 4, 2, ALTS, '{"no", "same", "diff"}'), (5, 8, 2, ALTS, '{"no"}'), (1, 16, 6, '{"g", "m"}', '{"no"}'),
              (1, 4, 3, ALTS, '{"no"}')])
     for (a, b, calls, alts, dups) in runs:
         ctx.constants["MC_%d_%d_calls%d" % (a, b, calls)] = {"MinLeaves": a, "MaxLeaves": b, "MaxCalls": calls, "Alts": alts, "Dups": dups}
-        ctx.mc("util/MCHashTree", mc_cfg(a, b, calls, alts, dups), name="MC hashtree n=%d..%d calls=%d" % (a, b, calls), timeout=3000)
+        # -coverage is switched off: with the recursive operators it doubles the run time
+        ctx.mc("util/MCHashTree", mc_cfg(a, b, calls, alts, dups), name="MC hashtree n=%d..%d calls=%d" % (a, b, calls), timeout=3000,
+               coverage=False)
     # ---- GEN + replay ----
     gmax, full = (4, 2) if q else (8, 3)
     ctx.constants["GEN"] = {"MinLeaves": 1, "MaxLeaves": gmax, "FullPairsMax": full}
@@ -76,7 +78,7 @@ def run(ctx):
         ctx.report("case:%s" % m["kind"], "real hashtree vs Spec (n=%s): %s" % (m.get("n"), KEYS.get(m["kind"], m["kind"])),
                    replay={"kind": "gen-case", "case": m.get("case"), "call_index": m.get("call_index"), "real": m.get("detail")})
     # ---- TRACE ----
-    nt, ne = (40, 30) if q else (600, 50)
+    nt, ne = (30, 30) if q else (600, 50)
     traces = ctx.impl("harness/hashtree_driver.py", ["--mode", "trace", "--n", nt, "--events", ne, "--maxleaves", 64])
     for tr in traces:
         rej = any(e["ev"] == "set" and e["res"] != "ok" for e in tr["events"])
